@@ -19,7 +19,7 @@ EXPLANATION = (
     "is `new Field(*this)`; R11.2 clone(): _create._do(true) then copy_legal(msg), _header->copy_legal(msg->_header), "
     "_trailer->copy_legal(msg->_trailer), all with force=false, on every path; copy_legal: group loop (create_group(true), recursive "
     "copy_legal, append) dominates the count field's copy; move_legal: source group slot and field slot := nullptr after the transfer, "
-    "clear_positions() on every path; R11.3 copy_legal and move_legal test the same selection predicate. R11.4 add_field(BaseField*) refuses a field only when has() is false, never on its position. NOT decided: byte equality.")
+    "clear_positions() on every path; R11.3 copy_legal and move_legal test the same selection predicate. R11.4 add_field(BaseField*) refuses a field only when has() is false, never on its position. R11.5 the present bit of a tag is set only after a field object was stored into the same object's _fields (the transfer primitives branch on it). NOT decided: byte equality.")
 
 MB = 'FIX8::MessageBase::'
 
@@ -220,6 +220,60 @@ def run(ctx):
               'a field is refused only when the trait table does not contain it (has() false)',
               'add_field(BaseField*) refuses a field on `%s`: getPos() is 0 for a legal field without a position (the -F user fields 9991/9999), so clone, copy_legal and '
               'move_legal of a message carrying one throw InvalidField' % (pos_dep.text() if pos_dep is not None else 'a test other than has()'))
+    # ---------------- R11.5 "present" means "a field object for this tag is in _fields": the transfer primitives (add_field, replace) decide between adding and
+    # replacing on that bit.  Every place of MessageBase that sets the bit has, on the way there, stored a field into the same object's _fields (insert/emplace,
+    # `it->second = f` on an iterator into it, or add_field).  A setter that only touches _groups makes the next add_field take the replace branch, find nothing to
+    # replace, and drop the field (the NoXXX count of a moved group).
+    RAW_SETTERS = {MB + 'set': 'the public raw trait setter (hands any trait bit through; not a transfer primitive)'}
+    n_set = 0
+    for g in prog.all_functions():
+        if not (g.qp or '').startswith(MB) or 'cfg' not in g.raw or g.tmpl == 'pattern':
+            continue
+        gcfg = g.cfg
+        for c in g.calls():
+            if c.callee_qp != 'FIX8::FieldTraits::set' or c.obj is None or not gcfg.has_vertex(c):
+                continue
+            if not any(x.k == 'MemberExpr' and x.decl.get('n') == '_fp' for x in c.obj.walk()):
+                continue
+            last = c.args[-1].strip(casts=True) if c.args else None
+            if last is None or not any(x.k == 'DeclRefExpr' and x.decl is not None and x.decl.get('n') == 'present' for x in last.walk()):
+                continue
+            if g.qp in RAW_SETTERS:
+                continue
+            fpm = [x for x in c.obj.walk() if x.k == 'MemberExpr' and x.decl.get('n') == '_fp'][0]
+            base = fpm.children[0].strip(casts=True).text() if fpm.children else 'this'
+            n_set += 1
+            cv = gcfg.vertex_of(c)
+
+            def same_base(n_):
+                ms = [x for x in n_.walk() if x.k == 'MemberExpr' and x.decl.get('n') == '_fields']
+                return any((m_.children[0].strip(casts=True).text() if m_.children else 'this') == base for m_ in ms)
+            stores = []
+            for d in g.calls():
+                if not gcfg.has_vertex(d):
+                    continue
+                nm = d.callee.get('n') if d.callee is not None else None
+                if nm in ('insert', 'emplace', 'emplace_hint') and d.obj is not None and same_base(d.obj):
+                    stores.append(d)
+                if nm == 'add_field' and ((d.obj is None and base == 'this') or (d.obj is not None and d.obj.strip(casts=True).text() == base)):
+                    stores.append(d)
+            for w in g.all_nodes():
+                if w.k == 'BinaryOperator' and w.op == '=' and gcfg.has_vertex(w):
+                    l = w.children[0].strip(casts=True)
+                    if l.k == 'MemberExpr' and l.decl.get('n') == 'second':
+                        its = [x for x in l.walk() if x.k == 'DeclRefExpr' and x.decl is not None and x.decl.get('sc') == 'local']
+                        for it in its:
+                            for (dn, kind, val) in q.local_defs(g, it.declid):
+                                if val is not None and any(y.is_call and y.callee is not None and y.callee.get('n') == 'find' and y.obj is not None and same_base(y.obj) for y in val.walk()):
+                                    stores.append(w)
+            ok = any(gcfg.dominates(gcfg.vertex_of(st_), cv) for st_ in stores)
+            ctx.check(ok, 'R11.5', g.qp + '#present-means-stored@%d' % c.line, c.loc,
+                      'the present bit is set only after a field was stored into the same object\'s _fields',
+                      '`%s` sets the present bit of a tag without storing a field for it (%s touches no _fields entry on the way): the next add_field for that tag '
+                      'takes its replace-duplicate branch, finds nothing to replace and drops the field — a moved repeating group loses its count field and is not '
+                      'encoded' % (c.text()[:70], g.qp))
+    ctx.need(n_set >= 5, 'fewer than 5 sites setting the present bit found in MessageBase (%d)' % n_set)
+    ctx.floor('R11.5', 5)
     ctx.floor('R11.4', 1)
     ctx.floor('R11.1', 16)
     ctx.floor('R11.2', 10)
